@@ -76,6 +76,7 @@ def build(cell):
     module, name = cell["module"], cell["name"]
     resolve, call, callee = cell["resolve"], cell["call"], cell["callee"]
     disposal, framing = cell["disposal"], cell["framing"]
+    arg = cell.get("arg", "id")
     b = _B()
 
     if resolve == "INST" and (call != "inst" or callee != "global"):
@@ -120,7 +121,7 @@ def build(cell):
     if call == "inst":
         b.bind(module, name)
         b.emit("MARK")
-        b.emit("SHORT_BINUNICODE", "id")
+        b.emit("SHORT_BINUNICODE", arg)
         b.emit("INST", (module, name))
     else:
         if callee == "global":
@@ -139,26 +140,26 @@ def build(cell):
         if call == "none":
             pass
         elif call == "reduce_t1":
-            b.emit("SHORT_BINUNICODE", "id")
+            b.emit("SHORT_BINUNICODE", arg)
             b.emit("TUPLE1")
             b.emit("REDUCE")
         elif call == "reduce_mark":
             b.emit("MARK")
-            b.emit("SHORT_BINUNICODE", "id")
+            b.emit("SHORT_BINUNICODE", arg)
             b.emit("TUPLE")
             b.emit("REDUCE")
         elif call == "reduce_empty":
             b.emit("EMPTY_TUPLE")
             b.emit("REDUCE")
         elif call == "obj":
-            b.emit("SHORT_BINUNICODE", "id")
+            b.emit("SHORT_BINUNICODE", arg)
             b.emit("OBJ")
         elif call == "newobj":
-            b.emit("SHORT_BINUNICODE", "id")
+            b.emit("SHORT_BINUNICODE", arg)
             b.emit("TUPLE1")
             b.emit("NEWOBJ")
         elif call == "newobj_ex":
-            b.emit("SHORT_BINUNICODE", "id")
+            b.emit("SHORT_BINUNICODE", arg)
             b.emit("TUPLE1")
             b.emit("EMPTY_DICT")
             b.emit("NEWOBJ_EX")
